@@ -432,6 +432,35 @@ pub fn programs(tier: &str) -> Vec<Program> {
     v
 }
 
+/// Generated family: every unordered pair of node programs of 1..=max_len lease operations; the first
+/// operation is an acquire or a scavenge, later ones range over the whole alphabet.
+pub fn generated_programs(max_len: usize, backend: &str, jumps: &[i64]) -> Vec<Program> {
+    let first = vec![Op::Acquire(cs(&["c1", "c2"])), Op::Acquire(cs(&["c2"])), Op::Scavenge];
+    let later = vec![Op::Renew, Op::Complete, Op::Fail, Op::Scavenge, Op::Acquire(cs(&["c2"]))];
+    let mut all: Vec<Vec<Op>> = Vec::new();
+    let mut cur: Vec<Vec<Op>> = first.iter().map(|o| vec![o.clone()]).collect();
+    all.extend(cur.iter().cloned());
+    for _ in 1..max_len {
+        let mut next = Vec::new();
+        for q in &cur {
+            for o in &later {
+                let mut n = q.clone();
+                n.push(o.clone());
+                next.push(n);
+            }
+        }
+        all.extend(next.iter().cloned());
+        cur = next;
+    }
+    let mut v = Vec::new();
+    for i in 0..all.len() {
+        for j in i..all.len() {
+            v.push(Program { name: format!("gen/{backend}/{i}x{j}"), backend: backend.into(), preexisting: (i + j) % 2 == 1, clients: vec![all[i].clone(), all[j].clone()], jumps: jumps.to_vec() });
+        }
+    }
+    v
+}
+
 pub fn factory(prog: Program) -> ScenarioFactory {
     Arc::new(move || Box::new(C08Scenario::new(prog.clone())) as Box<dyn Scenario>)
 }
@@ -462,6 +491,51 @@ pub fn run(tier: &str) -> i32 {
             prog.name, st.executions, st.states, st.pruned, st.max_depth, st.outcomes.len(), st.wall_s, if st.capped { " CAPPED" } else { "" }
         );
         rep.absorb_explore(&prog.name, &serde_json::to_value(&prog).unwrap(), &st, cfg.bounds);
+    }
+    // generated families
+    {
+        let thorough = tier == "thorough";
+        let fams: Vec<(String, Vec<Program>, u32)> = if thorough {
+            vec![
+                ("2 nodes x 1..=3 lease operations, object-store, jumps {+150 s, +301 s} <= 2".into(), generated_programs(3, "object-store", &[150, 301]), 2),
+                ("2 nodes x 1..=3 lease operations, in-memory, jumps {+150 s, +301 s} <= 2".into(), generated_programs(3, "in-memory", &[150, 301]), 2),
+            ]
+        } else {
+            vec![
+                ("2 nodes x 1..=2 lease operations (every 3rd pair), object-store, jumps {+150 s, +301 s} <= 2".into(), generated_programs(2, "object-store", &[150, 301]).into_iter().step_by(3).collect(), 2),
+                ("2 nodes x 1..=2 lease operations, object-store, one jump of +301 s".into(), generated_programs(2, "object-store", &[301]), 1),
+                ("2 nodes x 1..=2 lease operations, in-memory, jumps {+150 s, +301 s} <= 2".into(), generated_programs(2, "in-memory", &[150, 301]), 2),
+            ]
+        };
+        for (name, progs, clock) in fams {
+            let t0 = std::time::Instant::now();
+            let bounds = Cost { preempt: 1000, clock, ..Cost::ZERO };
+            let os = progs.first().map(|p| p.backend == "object-store").unwrap_or(true);
+            let stats = explore_many(progs.iter().map(|p| factory(p.clone())).collect(), &|_| ExploreConfig {
+                bounds,
+                use_cache: os,
+                wall_cap: Duration::from_secs(1500),
+                selftest: 1,
+                ..Default::default()
+            });
+            let (mut ex, mut stt, mut tr, mut outc) = (0u64, 0u64, 0u64, 0u64);
+            for (p, st) in progs.iter().zip(stats.iter()) {
+                ex += st.executions;
+                stt += st.states;
+                tr += st.transitions;
+                outc += st.outcomes.len() as u64;
+                for k in st.flags.keys() {
+                    seen.insert(k.clone());
+                }
+                rep.absorb_explore_compact(&p.name, &serde_json::to_value(p).unwrap(), st, bounds);
+            }
+            println!("  C08 generated: {name}: {} programs executions={ex} states={stt} outcomes={outc} {:.1}s", progs.len(), t0.elapsed().as_secs_f64());
+            let scen = rep.coverage.entry("scenarios".to_string()).or_insert_with(|| json!([]));
+            if let Some(a) = scen.as_array_mut() {
+                a.push(json!({"scenario": format!("generated family: {name}"), "programs": progs.len(),
+                    "bounds_completed": {"preemptions": "unbounded", "clock_jumps": clock}, "executions": ex, "states": stt, "transitions": tr, "distinct_outcomes_summed": outc}));
+            }
+        }
     }
     rep.set("rule", "an execution = one complete interleaving of the nodes' requests with <= k wall-clock jumps placed anywhere; distinct = distinct state fingerprints (store image, clock, per-node response history, holder beliefs)");
     let d = rep.get_u64("states");
